@@ -20,7 +20,30 @@ func mapHeapNames(k, v types.Type) (present string, vals []string) {
 	return
 }
 
+// String keys: the identity of a string key is an uninterpreted function of the string value; the text of
+// the key with identity k is (mapkey$obj(k), 0, mapkey$len(k)). keyFacts ties the two together for every
+// string used as a key (equal identity => equal text). The converse (equal text => equal identity) is not
+// axiomatised: the model then allows two equal strings to name different slots, which only adds
+// behaviours (sound for proofs, and lookups by strings obtained from the map itself are exact).
+func strKeyId(s VString) *Term { return App("mapkey$sid", IntS, s.Obj, s.Off, s.Len) }
+
+func (e *Engine) keyFacts(st *State, k Val) {
+	s, ok := k.(VString)
+	if !ok {
+		return
+	}
+	id := strKeyId(s)
+	h := e.heap(st, strHeap, HeapI)
+	i := e.fresh("i", IntS)
+	st.assume(Eq(App("mapkey$len", IntS, id), s.Len),
+		Forall([]*Term{i}, nil, Implies(And(Le(Zero, i), Lt(i, s.Len)),
+			Eq(Select(Select(h, App("mapkey$obj", IntS, id)), i), Select(Select(h, s.Obj), Add(s.Off, i))))))
+}
+
 func keyTerm(k Val) *Term {
+	if s, ok := k.(VString); ok {
+		return strKeyId(s)
+	}
 	fl := Flatten(k)
 	if len(fl) != 1 || fl[0].S != IntS {
 		panic(unsupported("map key that is not a single integer-like scalar"))
@@ -40,6 +63,7 @@ func (e *Engine) mapGet(st *State, m VMap, key Val) (Val, *Term) {
 		}
 		return res, pres
 	}
+	e.keyFacts(st, key)
 	kt := keyTerm(key)
 	pn, vns := mapHeapNames(m.K, m.V)
 	ph := e.heap(st, pn, HeapB)
@@ -158,6 +182,7 @@ func (e *Engine) mapSet(st *State, m VMap, key, val Val) {
 	if m.Conc != nil {
 		panic(unsupported("update of a constant table"))
 	}
+	e.keyFacts(st, key)
 	kt := keyTerm(key)
 	pn, vns := mapHeapNames(m.K, m.V)
 	ph := e.heap(st, pn, HeapB)
@@ -170,6 +195,7 @@ func (e *Engine) mapSet(st *State, m VMap, key, val Val) {
 }
 
 func (e *Engine) mapDelete(st *State, m VMap, key Val) {
+	e.keyFacts(st, key)
 	kt := keyTerm(key)
 	pn, _ := mapHeapNames(m.K, m.V)
 	ph := e.heap(st, pn, HeapB)
@@ -208,8 +234,9 @@ func mapKeyVal(st *State, kt types.Type, k *Term) Val {
 	if b, ok := kt.Underlying().(*types.Basic); ok && b.Info()&types.IsString != 0 {
 		ln := App("mapkey$len", IntS, k)
 		st.assume(Ge(ln, Zero), Le(ln, Pow2(40)))
-		st.assume(Eq(App("mapkey$id", IntS, App("mapkey$obj", IntS, k)), k)) // distinct keys are distinct strings
-		return VString{App("mapkey$obj", IntS, k), Zero, ln}
+		ks := VString{App("mapkey$obj", IntS, k), Zero, ln}
+		st.assume(Eq(strKeyId(ks), k)) // the key with identity k is named by its own text
+		return ks
 	}
 	v, _ := Unflatten(kt, []*Term{k})
 	return v
